@@ -209,7 +209,7 @@ class SchemaCheck:
 class C13(SchemaCheck):
     id = 'C13'
     examples = 48
-    thorough_examples = 3000
+    thorough_examples = 800
     family = 'general'
     assumptions = ['the generated family: 8-40 fields (one schema in twenty: 80-120 in the quick tier, 150-300 in the thorough tier) over every type of f8c\'s type table except the two unimplemented TZ types, unique numbers below 65536, '
                    'set realms (char/int/float/string) and range realms with identifier-like descriptions, the mandatory standard header/trailer, a MsgType realm listing every message, '
@@ -222,7 +222,20 @@ class C13(SchemaCheck):
     rule = ('Hypothesis draws a schema model; the model is rendered to XML, compiled by f8c, the generated C++ is compiled and loaded. Oracle: f8c succeeds and its output compiles; the '
             'metadata read back from the generated tables equals the model (field number/name/type, realm kind/values/descriptions, message type/name/admin flag, per message and per '
             'group: member fields in schema order, mandatory flags after component expansion, group membership); generated messages of the schema encode to the reference bytes, decode to '
-            'the generated values and re-encode identically. Non-trivial: a group nested >= 2 that is shared by two messages, a component used both required and optional, or nesting 3.')
+            'the generated values and re-encode identically. Non-trivial: a group nested >= 2 that is shared by two messages, a component used both required and optional, nesting 3, or a count field with several definitions.')
+
+
+    def strategy(self):
+        # one case in four comes from the family in which one count field carries several definitions (differing in members, nested groups, mandatory flags or order):
+        # membership, order and mandatory flags of every message's own definition are C13's claim as well
+        general = SchemaCheck.strategy(self)
+        variants = st.tuples(sg.st_schema_c14(), st.integers(0, 2 ** 32 - 1), st.booleans()).map(lambda t: {'model': t[0], 'r': t[1], 'all_fields': t[2]})
+        return st.one_of(general, general, general, variants)
+
+    def features(self, model):
+        if model.get('family') == 'c14':
+            return {'nontrivial': True, 'classes': ['variant_family', 'mode:' + model.get('mode', '?')]}
+        return SchemaCheck.features(self, model)
 
 
 CHECKS = {'C13': C13}
@@ -231,7 +244,7 @@ CHECKS = {'C13': C13}
 class C14(SchemaCheck):
     id = 'C14'
     examples = 40
-    thorough_examples = 2000
+    thorough_examples = 700
     family = 'c14'
     assumptions = ['schemas in which one repeating-group count field is used by two or three messages with different definitions: different member fields (disjoint, or one extra member), '
                    'a nested group against none, and - in about half of the schemas - two definitions engineered to collide under the compiler\'s structural hash: rothash is linear '
